@@ -46,10 +46,15 @@ def run(chk, repo: Repo):
     chk.rule("C17-R6", "PSF sample grids are centred on the kernel origin: for both parities of the size N the grid is N consecutive integers with "
                        "its zero at index N // 2 (the origin of scipy's convolve1d and of the padded 'valid' convolution)", floor=7)
     _r6(chk, repo)
+    _r6_defocus_support(chk, repo)
     chk.rule("C17-R7", "optional arguments of the shipped problems (data, noise level, sizes, ...) are defaulted with `is None`, never by truthiness "
                        "(0 / 0.0 are legal observations and parameters)", floor=1)
     from ..truthy import truthy_default_rule
     truthy_default_rule(chk, repo, "C17-R7", ("cuqi/testproblem/",))
+    chk.rule("C17-R8", "the noise of a shipped problem is a fresh draw from the caller's random stream: no library routine on the way (phantoms, signals, models, "
+                       "geometries, distributions) re-seeds or replaces the global random state", floor=20)
+    from ..rngseed import global_rng_rule
+    global_rng_rule(chk, repo, "C17-R8", ("cuqi/",))
     for cname in CLASSES:
         ci = repo.cls(f"{TP}:{cname}")
         init = repo.method(ci, "__init__")[1]
@@ -370,6 +375,47 @@ def _r6(chk, repo):
                     f"`{key}`: " + "; ".join(problems) + ": the PSF is displaced against the kernel origin, i.e. the blur also shifts the signal", node)
         if found == 0:
             raise AnchorError(f"{fname}: no integer sample grid recognised")
+
+
+def _r6_defocus_support(chk, repo):
+    """The out-of-focus PSF is constant on the CLOSED disc / interval of radius R around the kernel centre: lattice points at distance exactly R belong to
+    the support.  Decided on the comparison against the radius in both builders (siblings must agree): the mask of zeroed pixels is strict (`d2 > R**2`),
+    or, written for the support, inclusive (`d2 <= R**2`)."""
+    n = 0
+    for fname in ("_DefocusPSF_1D", "_DefocusPSF"):
+        fn = repo.func(f"{TP}:{fname}")
+        R = fn.args.args[1].arg
+
+        def is_radius(e):
+            if isinstance(e, ast.Name) and e.id == R:
+                return True
+            if isinstance(e, ast.BinOp) and isinstance(e.op, ast.Pow) and isinstance(e.left, ast.Name) and e.left.id == R:
+                return True
+            if isinstance(e, ast.BinOp) and isinstance(e.op, ast.Mult) and all(isinstance(x, ast.Name) and x.id == R for x in (e.left, e.right)):
+                return True
+            return False
+        # single-definition aliases of the squared radius (r2 = R**2)
+        alias = {s.targets[0].id for s in ast.walk(fn) if isinstance(s, ast.Assign) and len(s.targets) == 1 and isinstance(s.targets[0], ast.Name) and is_radius(s.value)}
+        cmps = []
+        for c in ast.walk(fn):
+            if not (isinstance(c, ast.Compare) and len(c.ops) == 1):
+                continue
+            l, r, op = c.left, c.comparators[0], c.ops[0]
+            lr = is_radius(l) or (isinstance(l, ast.Name) and l.id in alias)
+            rr = is_radius(r) or (isinstance(r, ast.Name) and r.id in alias)
+            if lr == rr or isinstance(op, (ast.Eq, ast.NotEq, ast.Is, ast.IsNot)):
+                continue
+            # orient: distance OP radius
+            o = type(op) if rr else {ast.Gt: ast.Lt, ast.Lt: ast.Gt, ast.GtE: ast.LtE, ast.LtE: ast.GtE}[type(op)]
+            cmps.append((c, o))
+        if not cmps:
+            raise AnchorError(f"{fname}: no comparison of the pixel distance against the radius `{R}` found")
+        for c, o in cmps:
+            n += 1
+            chk.add("C17-R6", f"{TP}:{fname}/support@{o.__name__}", o in (ast.Gt, ast.LtE), site(repo, c), "points at distance exactly R belong to the support (mask d2 > R**2)",
+                    f"`{unparse(c)}` puts the lattice points at distance exactly {R} outside the support: for every radius whose square is a sum of two integer squares "
+                    f"(all integer radii) the disc loses its boundary pixels and the normalised PSF, the model and the data belong to a smaller blur", c)
+    return n
 
 
 def _inline(node, env):
